@@ -30,7 +30,7 @@ ASSUMPTIONS = [
     "fitted estimators are third-party; only what black_it passes to and takes from them is judged",
 ]
 REQUIRED_COUNTERS = {f"nomod_{k}": 6 for k in G.SAMPLER_KINDS}
-REQUIRED_COUNTERS.update({"stub_long_history_with_default_pool": 6, "bestbatch_calls_on_extended_history": 20, "bestbatch_calls_on_unrelated_history": 8, "histories_with_points_outside_the_space": 20, "stub_subclasses_with_their_own_pool": 15, "stub_predictions_as_list_or_tuple": 25, "stub_predictions_with_infinities": 6, "stub_histories_with_nonfinite_losses": 15, "nomod_second_call_on_extended_history": 30, "direct_sample_batch_other_size": 60, "estimator_fits_observed": 40, "second_history_same_length": 40, "stub_calls": 100, "real_surrogate_calls": 30, "bestbatch_proposals": 200, "extreme_histories": 50, "boundary_ties": 20})
+REQUIRED_COUNTERS.update({"stub_long_history_with_default_pool": 3, "bestbatch_calls_on_extended_history": 20, "bestbatch_calls_on_unrelated_history": 8, "histories_with_points_outside_the_space": 20, "stub_subclasses_with_their_own_pool": 15, "stub_predictions_as_list_or_tuple": 25, "stub_predictions_with_infinities": 6, "stub_histories_with_nonfinite_losses": 15, "nomod_second_call_on_extended_history": 30, "direct_sample_batch_other_size": 60, "estimator_fits_observed": 40, "second_history_same_length": 40, "stub_calls": 100, "real_surrogate_calls": 30, "bestbatch_proposals": 200, "extreme_histories": 50, "boundary_ties": 20})
 SHARDS = {"quick": 16, "thorough": 16}
 SHARD_WATCHDOG = {"quick": 1500, "thorough": 10800}
 
